@@ -72,6 +72,26 @@ def sweep_impl(rep, tier, seed):
                         else:
                             rep.check(np.array_equal(np.isnan(cube), np.isnan(ref)) and np.allclose(np.nan_to_num(cube), np.nan_to_num(ref), rtol=1e-6, atol=1e-5),
                                       "cube depends on the gulp", function="base.py::Filterbank.fold", input=inp)
+            # TimeSeries.fold: one channel, no delays - same phase model, nbins != nints on purpose
+            from sigpyproc.header import Header
+            from sigpyproc.timeseries import TimeSeries
+            for (n, m, nbins, nints, accel) in ((400, 16, 8, 3, 0.0), (330, 10, 5, 4, 0.0), (512, 25, 25, 2, 0.0), (400, 16, 4, 7, 50.0)):
+                x = (rng.integers(0, 100, n) + 1).astype(np.float32)
+                hd = Header(filename="x.tim", data_type="time series", nchans=1, foff=-1.0, fch1=1400.0, nbits=32, tsamp=tsamp, tstart=58000.0, nsamples=n)
+                inp = dict(n=n, period_samples=m, nbins=nbins, nints=nints, accel=accel)
+                rep.case(("tsfold", n, m, nbins, nints, accel), inp)
+                try:
+                    cube = np.asarray(TimeSeries(x.copy(), hd).fold(m * tsamp, accel=accel, nbins=nbins, nints=nints).data, dtype=np.float64)
+                except Exception as exc:  # noqa: BLE001
+                    rep.fail(f"TimeSeries.fold raised {type(exc).__name__}", function="timeseries.py::TimeSeries.fold", input=inp, observed=str(exc)[:120])
+                    continue
+                wf, wc = direct(x.astype(np.float64).reshape(n, 1), np.zeros(1, dtype=np.int64), 0, tsamp, m * tsamp, accel, n, nbins, nints, 1)
+                with np.errstate(all="ignore"):
+                    want = wf / wc
+                ok = cube.shape == want.shape and np.allclose(np.nan_to_num(cube, nan=-1.0), np.nan_to_num(want, nan=-1.0), rtol=1e-5, atol=1e-4)
+                rep.check(ok, "TimeSeries.fold: cube differs from the mean of the samples assigned by the phase model",
+                          function="timeseries.py::TimeSeries.fold", input=inp, observed=[list(cube.shape), cube.ravel()[:6].tolist()],
+                          required=[list(want.shape), want.ravel()[:6].tolist()])
             # kernel: hit counts and a strictly periodic train
             for m, nbins, nints in ((16, 16, 4), (12, 6, 3)):
                 n = 20 * m
